@@ -662,12 +662,56 @@ fn sockerr_case(rc: &RCfg, what: &str, out: &mut Out) {
     out.case(&input, &obs, &if fails.is_empty() { "ok".to_string() } else { format!("FAIL:{}", fails.join(";")) });
 }
 
+
+/// several datagrams delivered to ONE channel, in order (state kept inside the channel between datagrams must not matter)
+fn recvseq_tagged(rc: &RCfg, from: Option<IpAddr>, list: &[Vec<u8>], unrewritten_dublin4: bool, out: &mut Out) {
+    recvseq_case(rc, from, list, unrewritten_dublin4, out)
+}
+fn recvseq_case(rc: &RCfg, from: Option<IpAddr>, list: &[Vec<u8>], unrewritten_dublin4: bool, out: &mut Out) {
+    let input = format!("recvseq {} {} {} {}", rc.render(), from.map_or("-".to_string(), |a| hex(&addr_bytes(a))),
+        list.iter().map(|b| hex(b)).collect::<Vec<_>>().join(","), if unrewritten_dublin4 { "dublin4" } else { "-" });
+    let r = catch_unwind(AssertUnwindSafe(|| {
+        sim::reset();
+        let mut ch = match Channel::<SimSocket>::connect(&rc.channel_config(84, 0, 33434)) { Ok(c) => c, Err(e) => return vec![format!("err:{}", ErrK::of(&e).tok())] };
+        let mut v = vec![];
+        for b in list {
+            sim::with(|w| w.readyq.push_back((b.clone(), from.map(|a| SocketAddr::new(a, 0)))));
+            let (o, _) = observe(catch_unwind(AssertUnwindSafe(|| ch.recv_probe())));
+            v.push(o);
+        }
+        v
+    }));
+    let obs = match r { Ok(v) => v, Err(_) => vec!["fault:panic".to_string()] };
+    let mut fails = vec![];
+    for (i, o) in obs.iter().enumerate() {
+        if o == "fault:panic" { fails.push(format!("C04:panic:datagram_{i}_of_a_sequence")); }
+        if unrewritten_dublin4 {
+            // C19: the probe crossed no rewriting device, so the recomputed (expected) and the quoted (actual) checksum agree
+            let t: Vec<&str> = o.split('/').collect();
+            match t.iter().position(|x| *x == "u") {
+                Some(k) if t.len() > k + 7 => {
+                    if t[k + 6] != t[k + 7] { fails.push(format!("C19:nat_would_be_shown_on_an_unrewritten_path:datagram_{i}:expected_{}_quoted_{}", t[k + 6], t[k + 7])); }
+                }
+                _ => fails.push(format!("C02:own_response_not_recognised:datagram_{i}")),
+            }
+        }
+    }
+    out.case(&input, &obs.join("|"), &if fails.is_empty() { "ok".to_string() } else { format!("FAIL:{}", fails.join(";")) });
+}
+
 pub fn run(args: &Args, out: &mut Out) {
     if let Some(path) = &args.replay {
         for l in crate::replay_inputs(path) {
             let t: Vec<&str> = l.split(' ').collect();
             match t[0] {
                 "recv" => recv_case(&RCfg::parse(t[1]), if t[2] == "-" { None } else { Some(addr_from(&unhex(t[2]))) }, &unhex(t[3]), t.get(4).copied().unwrap_or("-"), out),
+                "recvseq" => {
+                    let rc = RCfg::parse(t[1]);
+                    let from = if t[2] == "-" { None } else { Some(addr_from(&unhex(t[2]))) };
+                    let list: Vec<Vec<u8>> = t[3].split(',').map(unhex).collect();
+                    let dub4 = rc.proto == Protocol::Udp && !rc.v6() && t.get(4).copied() == Some("dublin4");
+                    recvseq_case(&rc, from, &list, dub4, out);
+                }
                 "sockerr" => sockerr_case(&RCfg::parse(t[1]), t[2], out),
                 "tcpsock" => tcp_case(&RCfg::parse(t[1]), &parse_outcome(t[2]), t[3].parse().unwrap(), t[4].parse().unwrap(), t.get(5).copied().unwrap_or("-"), out),
                 "probe" => probe_case(&RCfg::parse(t[1]), t[2].parse().unwrap(), t[3].parse().unwrap(), t[4].parse().unwrap(), t[5].parse().unwrap(), t[6].parse().unwrap(),
@@ -851,6 +895,48 @@ pub fn run(args: &Args, out: &mut Out) {
             let rc = rand_rcfg(&mut rng, c);
             sockerr_case(&rc, what, out);
         }
+    }
+
+    // ---- several datagrams on ONE channel: the rounds of a trace as the receive path sees them (the non-fixed port changes from
+    //      round to round, ttl / sequence from probe to probe); Dublin over IPv4 without any rewriting device: expected = quoted checksum
+    {
+        let mut n = 0usize;
+        for c in &all {
+            for _ in 0..(if thorough { 40 } else { 6 }) {
+                let mut rc = rand_rcfg(&mut rng, c);
+                rc.privileged = true;
+                let tid = 1 + rng.below(65535) as u16;
+                let initseq = *rng.pick(&[33434u16, 1, 60000]);
+                let dublin4 = c.proto == Protocol::Udp && !c.v6 && c.strat == MultipathStrategy::Dublin;
+                let mut list = vec![];
+                let mut from = None;
+                let iph = if c.v6 { 40 } else { 20 };
+                let size = *rng.pick(&[iph + 8, iph + 9, 84, 200]);
+                for round in 0..4u16 {
+                    for k in 0..2u16 {
+                        let seq = initseq + round * 7 + k;
+                        let mut id = ident(c, tid, initseq, seq);
+                        // the port that is not fixed is the round's port
+                        if c.proto == Protocol::Udp && c.strat != MultipathStrategy::Classic {
+                            match c.pd { PortDirection::FixedSrc(_) => id.dp = initseq + round * 7, PortDirection::FixedDest(_) => id.sp = initseq + round * 7, _ => {} }
+                        }
+                        let d = if c.proto == Protocol::Tcp { probe_dgram(c, &rc, &id, 1 + k as u8, 0, size, &mut rng) }
+                            else { match real_dgram(&rc, &id, size as u16, 0, 1 + k as u8, 7) { Some(d) => d, None => continue } };
+                        let peer = rand_peer(&mut rng, c, &rc, d.len());
+                        let (b, _) = quote(c.v6, &addr_bytes(rc.src), &peer, &d);
+                        if c.v6 { from = Some(addr_from(&peer.router)); }
+                        list.push(b);
+                    }
+                }
+                if list.is_empty() { continue; }
+                let input_tag = dublin4;
+                // the tag is part of the line so that a replay applies the same oracle
+                let input_from = from;
+                recvseq_tagged(&rc, input_from, &list, input_tag, out);
+                n += 1;
+            }
+        }
+        out.stat("multi_datagram_sequences", &n.to_string());
     }
 
     // ---- (ii) fully random bytes (random lengths, plus ICMP-looking prefixes)
